@@ -11,6 +11,63 @@ use crate::util::{guard, hash64, hash_bytes, Ctx, Rng};
 
 pub fn run(ctx: &mut Ctx) {
     files(ctx);
+    page_exact(ctx);
+}
+
+// Files whose size is an exact number of pages and whose last structure is a raw / integer vector, with an
+// inaccessible page placed right behind the mapping when the address is free: a view that reads even one byte past the
+// file dies with SIGSEGV instead of exposing "exactly the content that loading would give". (Without the guard page the
+// stray read lands in whatever happens to be mapped there and stays invisible.)
+fn page_exact(ctx: &mut Ctx) {
+    let cases = ctx.size(12, 100);
+    let mut guarded = 0u64;
+    for c in 0..cases {
+        if !ctx.begin_case() { continue; }
+        let mut rng: Rng = ctx.rng(0xC13_900 + c as u64);
+        let pages = 1 + c % 3;
+        let last = if c % 2 == 0 {
+            let w = *rng.pick(&[1usize, 7, 13, 31, 32, 33, 57, 59, 61, 63, 64]);
+            let mut iv = IntVector::new(w).unwrap();
+            for _ in 0..(1 + rng.below(300)) { iv.push(rng.next_u64() | (1u64 << 63)); }
+            Item::Int(iv)
+        } else {
+            let bits: Vec<bool> = (0..(1 + rng.below(4000))).map(|_| rng.chance(2, 3)).collect();
+            Item::Raw(mk::raw_set_bit(&bits))
+        };
+        let mut tail: Vec<u8> = Vec::new();
+        last.write(&mut tail);
+        let filler_items = pages * 512 - 1 - tail.len() / 8;
+        let filler = Item::VU((0..filler_items).map(|i| i as u64).collect());
+        let mut bytes: Vec<u8> = Vec::new();
+        filler.write(&mut bytes);
+        let offset = bytes.len() / 8;
+        bytes.extend_from_slice(&tail);
+        assert_eq!(bytes.len(), pages * 4096);
+        let name = format!("{}/vmon-c13-{}-{}-page{}", ctx.tmpdir, std::process::id(), ctx.shard, c);
+        std::fs::write(&name, &bytes).unwrap();
+        // Reserve pages+1 inaccessible pages, then give the first `pages` back: the kernel places the next mapping of
+        // that size into the hole (top-down first fit), directly in front of the page that stays inaccessible.
+        let span = (pages + 1) * 4096;
+        let reserve = unsafe { libc::mmap(std::ptr::null_mut(), span, libc::PROT_NONE, libc::MAP_PRIVATE | libc::MAP_ANONYMOUS, -1, 0) };
+        let guard_addr = if reserve == libc::MAP_FAILED { 0 } else { unsafe { libc::munmap(reserve, pages * 4096); } reserve as usize + pages * 4096 };
+        let map = match guard(|| MemoryMap::new(&name, if c % 4 < 2 { MappingMode::ReadOnly } else { MappingMode::Mutable })) {
+            Ok(Ok(m)) => m,
+            _ => { ctx.violation("map.new", format!("MemoryMap::new failed on a file of {} pages", pages)); let _ = std::fs::remove_file(&name); continue; },
+        };
+        let end = { let sl: &[u64] = map.as_ref(); sl.as_ptr() as usize + sl.len() * 8 };
+        let g = guard_addr as *mut libc::c_void;
+        let have_guard = guard_addr != 0 && end == guard_addr;
+        if have_guard { guarded += 1; }
+        crate::drivers::c08::note_call(&format!("C13 page_exact: views of {} at element offset {} of a {}-page file, guard page behind the mapping: {}", last.kind(), offset, pages, have_guard));
+        let got = guard(|| view(&map, offset, &last));
+        ctx.expect_eq(&format!("view.page_exact.{}", last.kind()), || format!("view of {} ending exactly at the end of a {}-page file (guard page: {})", last.kind(), pages, have_guard), &got, &Ok((offset, pages * 512 - offset, true)));
+        drop(map);
+        if guard_addr != 0 { unsafe { libc::munmap(g, 4096); } }
+        let _ = std::fs::remove_file(&name);
+        ctx.case(hash64(&[9, c as u64, pages as u64, hash_bytes(&tail)]), true);
+        ctx.sample(|| format!("page_exact: {}-page file ending with {} ({} elements), guard page behind the mapping: {}", pages, last.kind(), tail.len() / 8, have_guard));
+    }
+    ctx.count("page_exact.guard_pages_placed", guarded);
 }
 
 #[derive(Clone, Debug, PartialEq)]
@@ -23,7 +80,7 @@ impl Item {
             0 => Item::VU((0..len).map(|_| rng.next_u64()).collect()),
             1 => Item::VP((0..len).map(|_| (rng.next_u64(), rng.next_u64())).collect()),
             2 => Item::Bytes((0..len).map(|_| rng.next_u64() as u8 | 1).collect()),
-            3 => Item::Str((0..len).map(|i| (b'a' + ((i * 7) % 26) as u8) as char).collect()),
+            3 => { let exotic = rng.chance(1, 2); Item::Str((0..len).map(|i| if exotic && i % 3 == 1 { ['é', 'ß', '漢', '😀', 'ñ'][i % 5] } else { (b'a' + ((i * 7) % 26) as u8) as char }).collect()) },
             4 => Item::Opt(Some((0..len).map(|_| rng.next_u64()).collect())),
             5 => Item::Opt(None),
             6 => { let bits: Vec<bool> = (0..len * 13).map(|_| rng.chance(1, 2)).collect(); Item::Raw(mk::raw_set_bit(&bits)) },
